@@ -396,6 +396,23 @@ func (g *Graph) Variant(r *rand.Rand) (string, []string) {
 		graphVal = top[0]
 	}
 	switch {
+	case !plain && len(top) >= 2 && len(reversed) == 0 && r.Intn(7) == 0:
+		// JSON-LD 1.1: the first node object is the document, the other node objects are its @included block
+		first, isObj := top[0].(*OObj)
+		if !isObj || first.has("@included") {
+			doc = top
+			break
+		}
+		d := &OObj{}
+		if hasCtx {
+			d.Set("@context", ctxVal)
+		}
+		for i, k := range first.Keys {
+			d.Set(k, first.Vals[i])
+		}
+		d.Set("@included", append([]any{}, top[1:]...))
+		mark("@included-block")
+		doc = d
 	case plain:
 		d := &OObj{}
 		d.Set("@graph", graphVal)
